@@ -52,6 +52,8 @@ pub fn order_rules() -> Vec<Rewrite> { vec![
         "(mergejoin ?type ?cond ?lkey ?rkey ?left ?right)"
         if is_orderby("?lkey", "?left")
         if is_orderby("?rkey", "?right")
+        // the merge join executor implements inner and outer joins only
+        if is_not_semi_or_anti("?type")
     ),
     rw!("sort-agg";
         "(hashagg ?keys ?aggs ?child)" =>
@@ -59,6 +61,17 @@ pub fn order_rules() -> Vec<Rewrite> { vec![
         if is_orderby("?keys", "?child")
     ),
 ]}
+
+/// Returns true unless the join type is semi or anti.
+fn is_not_semi_or_anti(ty: &str) -> impl Fn(&mut EGraph, Id, &Subst) -> bool {
+    let ty = var(ty);
+    move |egraph, _, subst| {
+        !egraph[subst[ty]]
+            .nodes
+            .iter()
+            .any(|n| matches!(n, Expr::Semi | Expr::Anti))
+    }
+}
 
 /// Returns true if the plan is ordered by the keys.
 fn is_orderby(keys: &str, plan: &str) -> impl Fn(&mut EGraph, Id, &Subst) -> bool {
